@@ -20,12 +20,12 @@ func gz3(a, b, c int64) string {
 func podKey(name string) string { return ns + "/" + name }
 
 func gNode(v *NodeV) string {
-	return fmt.Sprintf("(mkNode %s %s %s %s %s %s %s %s %s)", kit.GStr(v.Name), kit.GStr(v.PID), kit.GStr(v.Pool),
-		kit.GBool(v.IType), kit.GBool(v.Init), kit.GBool(v.Reg), kit.GZ(v.CPU), kit.GZ(v.Mem), kit.GBool(v.Deleting))
+	return fmt.Sprintf("(mkNode %s %s %s %s %s %s %s %s %s %s)", kit.GStr(v.Name), kit.GStr(v.PID), kit.GStr(v.Pool),
+		kit.GBool(v.IType), kit.GBool(v.Init || v.InitFalse), kit.GBool(v.Init), kit.GBool(v.Reg), kit.GZ(v.CPU), kit.GZ(v.Mem), kit.GBool(v.Deleting))
 }
 
 func gClaim(v *ClaimV) string {
-	return fmt.Sprintf("(mkClaim %s %s %s %s %s %s)", kit.GStr(v.Name), kit.GStr(v.PID), kit.GStr(v.Pool), kit.GZ(v.CPU), kit.GZ(v.Mem), kit.GBool(v.Deleting))
+	return fmt.Sprintf("(mkClaim %s %s %s %s %s %s %s)", kit.GStr(v.Name), kit.GStr(v.PID), kit.GStr(v.Pool), kit.GZ(v.CPU), kit.GZ(v.Mem), kit.GBool(v.Deleting), kit.GBool(v.Term))
 }
 
 func gPod(v *PodV) string {
@@ -83,6 +83,10 @@ func gView(d *state.VerifC11Dump) (view, accs string) {
 		kit.GList(ac)
 }
 
+// operations the model never hears of: NodeClaims of a foreign node class (the informer must ignore them) and
+// nomination (checked by the Go-side carry-over oracle)
+var hidden = map[string]bool{"Nominate": true, "SetForeignClaim": true, "DelForeignClaim": true, "DeliverForeignClaim": true}
+
 func gItem(o Op) string {
 	switch o.Kind {
 	case "SetNode":
@@ -114,13 +118,18 @@ func gItem(o Op) string {
 func gCase(ops []Op, roundStart, roundEnd int) string {
 	var items []string
 	for i := 0; i < len(ops); i++ {
+		if hidden[ops[i].Kind] {
+			continue
+		}
 		if i == roundStart && roundEnd == roundStart {
 			items = append(items, "IClose []") // nothing to deliver
 		}
 		if i == roundStart && roundEnd > roundStart {
 			var r []string
 			for _, o := range ops[roundStart:roundEnd] {
-				r = append(r, strings.TrimPrefix(gItem(o), "IOp "))
+				if !hidden[o.Kind] {
+					r = append(r, strings.TrimPrefix(gItem(o), "IOp "))
+				}
 			}
 			items = append(items, "IClose "+kit.GList(r))
 			i = roundEnd - 1
